@@ -22,6 +22,12 @@ type Preempt struct {
 	To   int    `json:"To"`
 }
 
+type PreemptW struct {
+	Task int `json:"task"`
+	K    int `json:"k"`
+	To   int `json:"to"`
+}
+
 type Spec struct {
 	ID      string    `json:"id"`
 	Order   OrderPlan `json:"order"`
@@ -30,6 +36,7 @@ type Spec struct {
 	Shared  []Op      `json:"shared,omitempty"`
 	Tasks   [][]Op    `json:"tasks"`
 	Preempt []Preempt `json:"preempt,omitempty"`
+	PreemptW []PreemptW `json:"preempt_w,omitempty"`
 	Free    bool      `json:"free,omitempty"`
 	Dump    string    `json:"dump,omitempty"`
 	Detail  bool      `json:"detail,omitempty"`
@@ -147,6 +154,8 @@ type Result struct {
 	Unregistered uint64            `json:"unregistered,omitempty"`
 	Switches     [][3]uint64       `json:"switches,omitempty"`
 	LockOps      uint64            `json:"lock_ops,omitempty"`
+	GWrites      map[int]int       `json:"gwrites,omitempty"`
+	GWTotal      int               `json:"gw_total,omitempty"`
 	FuncsHit     int               `json:"funcs_hit,omitempty"`
 	Warnings     int               `json:"warnings"`
 	Disk         []string          `json:"disk,omitempty"`
